@@ -312,6 +312,22 @@ func main() {
 	fact("closeIdempotent", fn("index.go", "Index", "Close"), func(b *ast.BlockStmt) bool {
 		return has(b, `^\{ if idx\.db == nil \{ return nil \} err := idx\.db\.Close\(\) idx\.db = nil return err \}$`)
 	})
+	fact("onDemandReadsStore", fn("index.go", "onDemandColGetter", "GetCol"), func(b *ast.BlockStmt) bool {
+		// every lookup reads the bucket under the full 8-byte key; the getter keeps no state of its own
+		f := load("index.go")
+		return has(f, `type onDemandColGetter struct \{ db \*bbolt\.DB \}`) && has(b, `err := g\.db\.View\(func\(tx \*bbolt\.Tx\) error \{`) &&
+			has(b, `binary\.BigEndian\.PutUint64\(keyBuf\[:\], key\)`) && has(b, `item := bucket\.Get\(append\(keyPrefixValue, keyBuf\[:\]\.\.\.\)\)`)
+	})
+	fact("preloadedIsPlainMap", fn("index.go", "preloadedColGetter", "GetCol"), func(b *ast.BlockStmt) bool {
+		f := load("index.go")
+		return has(f, `type preloadedColGetter struct \{ values map\[uint64\]\*roaring\.Bitmap \}`) && has(b, `^\{ return cg\.values\[key\], nil \}$`)
+	})
+	fact("flushWritesInPlace", fn("writer.go", "IndexWriter", "Flush"), func(b *ast.BlockStmt) bool {
+		// the output is created exclusively under its final name and written there: no temporary name, no rename/link
+		f := load("writer.go")
+		return len(b.List) == 4 && has(b.List[2], `^defer db\.Close\(\)$`) && has(b.List[3], `^return idx\.WriteToBoltDatabase\(db\)$`) &&
+			!has(f, `os\.(Rename|Link|Symlink|Remove)\(|\.tmp"|bbolt\.Compact`)
+	})
 	fact("getSchemaRLock", fn("index.go", "Index", "GetSchema"), func(b *ast.BlockStmt) bool {
 		return len(b.List) >= 2 && has(b.List[0], `^idx\.mtx\.RLock\(\)$`) && has(b.List[1], `^defer idx\.mtx\.RUnlock\(\)$`)
 	})
